@@ -386,6 +386,9 @@ pub struct PrintOpts {
     /// inside brackets: a line break before every binary operator and before `->` of arrow calls, and a prime call in
     /// the last argument slot of another prime call is written without its own parentheses
     pub break_infix: bool,
+    /// redundant parentheses around the whole value of every definition, assignment and `ret`
+    /// (if- and case-expressions in those positions are otherwise written bare)
+    pub paren_values: bool,
 }
 
 pub struct Printed {
@@ -619,6 +622,15 @@ impl Printer {
 
     /// statement whose main expression may be a multi-line construct (fn / if / case)
     fn multi(&mut self, head: &str, e: &Expr, tail: &str) {
+        if self.opts.paren_values && !head.is_empty() && !matches!(e, Expr::Fn(_)) {
+            // If / Case come back parenthesised from `expr`; everything else gets one extra pair
+            let t = match e {
+                Expr::If(..) | Expr::Case(..) | Expr::Paren(_) => self.expr(e, 0),
+                _ => format!("({})", self.bracketed(|| self.expr(e, 0))),
+            };
+            self.line_out(&format!("{}{}{}", head, t, tail));
+            return;
+        }
         match e {
             Expr::Fn(f) => {
                 self.line_out(&format!("{}{}", head, self.fn_header(f)));
